@@ -38,6 +38,7 @@ type call struct {
 	Enter   int64  `json:"enter"`
 	Exit    int64  `json:"exit"`
 	Class   string `json:"class"` // nil | joberr | ctxerr | othererr | panic-own | panic-other
+	Handle  string `json:"handle,omitempty"` // chain scenarios: which wrapper of the chain Execute was called on
 	NsRun   int64  `json:"ns_run,omitempty"`
 	hold    chan struct{}
 	entered chan struct{}
@@ -300,6 +301,68 @@ func isolatedHold() {
 		invoke(nested, n2)
 		emit(map[string]any{"scenario": "chained", "wrapped": wrap, "calls": []*call{first, second, third, n1, n2},
 			"max_inflight": ru.maxInflight.Load()})
+	}
+	isolatedHandles()
+}
+
+// isolatedHandles: an isolated job wrapped a second and a third time -- h0 = NewIsolatedJob(job),
+// h1 = NewIsolatedJob(h0), h2 = NewIsolatedJob(h1) -- with EVERY handle of the chain in use.  While
+// an execution admitted through one handle is blocked inside the job, calls through each handle of
+// the chain (the holder's own, the inner and the outer ones) must come back with an error without
+// running the job; once the holder has returned a call through each handle must be admitted.
+func isolatedHandles() {
+	outcomes := []string{"ok", "error", "panic"}
+	n := 0
+	for depth := 2; depth <= 3; depth++ {
+		for hi := 0; hi < depth; hi++ {
+			u := &under{}
+			hs := []quartz.Job{job.NewIsolatedJob(u)}
+			for len(hs) < depth {
+				hs = append(hs, job.NewIsolatedJob(hs[len(hs)-1]))
+			}
+			name := func(i int) string { return fmt.Sprintf("h%d of a chain of %d wrappers (h0 wraps the job itself)", i, depth) }
+			o := outcomes[n%len(outcomes)]
+			n++
+			h := &call{G: 0, I: 0, Dur: "hold", Outcome: o, Handle: name(hi), hold: make(chan struct{}), entered: make(chan struct{})}
+			done := make(chan struct{})
+			go func(j quartz.Job) { defer close(done); invoke(j, h) }(hs[hi])
+			res := map[string]any{"scenario": "handles", "depth": depth, "holder_handle": hi, "outcome": o}
+			select {
+			case <-h.entered:
+			case <-time.After(30 * time.Second):
+				res["error"] = "holder never entered the job"
+				emit(res)
+				continue
+			}
+			var during []*call
+			blocked := false
+			for i := 0; i < 4*depth && !blocked; i++ {
+				c := &call{G: 1, I: i, Dur: "0", Outcome: "ok", Handle: name(i % depth)}
+				fin := make(chan struct{})
+				go func(j quartz.Job) { defer close(fin); invoke(j, c) }(hs[i%depth])
+				select {
+				case <-fin:
+					during = append(during, c)
+				case <-time.After(20 * time.Second):
+					blocked = true
+				}
+			}
+			close(h.hold)
+			select {
+			case <-done:
+			case <-time.After(30 * time.Second):
+				res["error"] = "holder never returned"
+			}
+			var fresh []*call
+			for i := 0; i < depth && res["error"] == nil && !blocked; i++ {
+				c := &call{G: 2, I: i, Dur: "0", Outcome: outcomes[(n+i)%len(outcomes)], Handle: name(i)}
+				invoke(hs[i], c)
+				fresh = append(fresh, c)
+			}
+			res["holder"], res["during"], res["blocked"], res["fresh"] = h, during, blocked, fresh
+			res["max_inflight"] = u.maxInflight.Load()
+			emit(res)
+		}
 	}
 }
 
